@@ -7,27 +7,29 @@ import (
 	"fmt"
 	"os"
 
-	"verifharness/internal/bip"
+	"verifharness/internal/tr"
 )
 
 func main() {
 	if len(os.Args) < 2 {
-		fmt.Fprintln(os.Stderr, "usage: replay <component> -in <behaviours> -out <trace>")
+		fmt.Fprintln(os.Stderr, "usage: replay <component> -in <behaviours> -out <trace> [-seed n] [-mode m]")
 		os.Exit(2)
 	}
 	comp := os.Args[1]
 	fs := flag.NewFlagSet(comp, flag.ExitOnError)
-	in := fs.String("in", "", "behaviours file (one JSON history per line)")
-	out := fs.String("out", "", "trace file (ndjson)")
+	var a tr.Args
+	fs.StringVar(&a.In, "in", "", "behaviours file (one JSON history per line)")
+	fs.StringVar(&a.Out, "out", "", "trace file (ndjson)")
+	fs.Int64Var(&a.Seed, "seed", 1, "seed for payload generators / random drivers")
+	fs.StringVar(&a.Mode, "mode", "", "component specific mode")
 	_ = fs.Parse(os.Args[2:])
-	var err error
-	switch comp {
-	case "bip":
-		err = bip.Run(*in, *out)
-	default:
-		err = fmt.Errorf("unknown component %q", comp)
+	a.Rest = fs.Args()
+	run, ok := tr.Components[comp]
+	if !ok {
+		fmt.Fprintf(os.Stderr, "replay: unknown component %q\n", comp)
+		os.Exit(2)
 	}
-	if err != nil {
+	if err := run(a); err != nil {
 		fmt.Fprintln(os.Stderr, "replay:", err)
 		os.Exit(2)
 	}
